@@ -622,6 +622,56 @@ def verifyHeader (r : Repo) (h : Hdr) : Verdict :=
   else if r.cfg.genesisId == h.prev then .err "Header after genesis"
   else .unknown
 
+/-- `load`, first loop: read every indexed branch file. -/
+def loadRead (st : Store) : List Nat → List Branch → M (List Branch)
+  | [], acc => .ok acc
+  | k :: rest, acc =>
+    match List.lookup k st.branches with
+    | none => .error (.err "branch: read")
+    | some bf => loadRead st rest (acc ++ [branchOfFile bf])
+
+/-- (repaired) one round of "keep the branches kept branches are built on". -/
+def loadKeepStep (bs : List Branch) (keep : List Bool) : List Bool :=
+  (bs.zip keep).map fun (b, k) =>
+    k || (bs.zip keep).any fun (c, kc) =>
+      kc && c.parentHeight != -1 && (b.hmap.get? c.first.prev).getD (-1) == c.parentHeight
+
+def loadKeepFix : Nat → List Branch → List Bool → List Bool
+  | 0, _, keep => keep
+  | n + 1, bs, keep => loadKeepFix n bs (loadKeepStep bs keep)
+
+/-- (repaired) do not prune below a header a kept branch is built on. -/
+def loadPruneHeight (bs : List Branch) (keep : List Bool) (keepHeight : Int) : Int :=
+  (bs.zip keep).foldl (fun (ph : Int) (b, k) =>
+    if k && b.parentHeight != -1 && b.parentHeight < ph then b.parentHeight else ph) keepHeight
+
+/-- place one kept branch (pruned to the prune height) into the arena; `loadBranchHashHeights`
+    (repaired): heights from the lowest retained height. -/
+def loadPlaceStep (pruneHeight : Int) (acc : Repo × List Nat) (x : Branch × Bool) : Repo × List Nat :=
+  if !x.2 then acc
+  else
+    let r := acc.1
+    let b := x.1
+    let b' := if b.prunedLowest ≤ pruneHeight then pruneBranch b (pruneHeight - b.prunedLowest) else b
+    let bi := r.arena.length
+    let hm := (b'.headers.zipIdx).foldl (fun m (d, i) => HMap.set m d.hdr.id (b'.prunedLowest + (i : Int))) r.heights
+    ({ r with arena := r.arena ++ [b'], heights := hm }, acc.2 ++ [bi])
+
+def loadPlace (r : Repo) (bs : List Branch) (keep : List Bool) (pruneHeight : Int) : Repo × List Nat :=
+  (bs.zip keep).foldl (loadPlaceStep pruneHeight) (r, [])
+
+/-- `Branch.Link` of one loaded branch: first branch that finds the previous hash; wrong height ⇒
+    error ⇒ skipped. -/
+def loadLinkStep (r : Repo) (bi : Nat) : Repo :=
+  let b := r.br bi
+  if b.parentHeight = -1 then { r with branches := r.branches ++ [bi] }
+  else
+    match r.branches.findSome? (fun c => (r.find c b.first.prev).map (fun h => (c, h))) with
+    | none => r
+    | some (c, h) =>
+      if h ≠ b.parentHeight then r
+      else { (r.setBranch bi { b with parent := some c }) with branches := r.branches ++ [bi] }
+
 /-- `migrate` / `initializeWithGenesis` are handled by the driver-level `init` for now: loading
     storage without a branch index yields the error class `no-index`. -/
 def load (r0 : Repo) (depth : Int) (genesis : Hdr) : Repo × Option Fail :=
@@ -638,44 +688,16 @@ def load (r0 : Repo) (depth : Int) (genesis : Hdr) : Repo × Option Fail :=
   | some idx =>
     if idx.isEmpty then (r, some (.err "No branches to load"))
     else
-      -- read every indexed branch file
-      let rec rd : List Nat → List Branch → M (List Branch)
-        | [], acc => .ok acc
-        | k :: rest, acc =>
-          match List.lookup k r.store.branches with
-          | none => .error (.err "branch: read")
-          | some bf => rd rest (acc ++ [branchOfFile bf])
-      -- (repaired) keep the branches that reach the prune depth and the branches those are built on;
-      -- do not prune below a header a kept branch is built on
-      let keepStep (bs : List Branch) (keep : List Bool) : List Bool :=
-        (bs.zip keep).map fun (b, k) =>
-          k || (bs.zip keep).any fun (c, kc) =>
-            kc && c.parentHeight != -1 && (b.hmap.get? c.first.prev).getD (-1) == c.parentHeight
-      let rec keepFix : Nat → List Branch → List Bool → List Bool
-        | 0, _, keep => keep
-        | n + 1, bs, keep => keepFix n bs (keepStep bs keep)
-      let place (r : Repo) (bs : List Branch) (keep : List Bool) (pruneHeight : Int) : Repo × List Nat :=
-        (bs.zip keep).foldl (fun (acc : Repo × List Nat) (b, k) =>
-          if !k then acc
-          else
-            let r := acc.1
-            let b' := if b.prunedLowest ≤ pruneHeight then pruneBranch b (pruneHeight - b.prunedLowest) else b
-            let bi := r.arena.length
-            -- loadBranchHashHeights (repaired): heights from the lowest retained height
-            let hm := (b'.headers.zipIdx).foldl (fun m (d, i) => HMap.set m d.hdr.id (b'.prunedLowest + (i : Int))) r.heights
-            ({ r with arena := r.arena ++ [b'], heights := hm }, acc.2 ++ [bi])) (r, [])
       let rdAll : M (Repo × List Nat) :=
-        match rd idx [] with
+        match loadRead r.store idx [] with
         | .error e => .error e
         | .ok bs =>
           match bs.head? with
           | none => .ok (r, [])
           | some b0 =>
             let keepHeight := b0.height - depth
-            let keep := keepFix bs.length bs (bs.map fun b => decide (b.height ≥ keepHeight))
-            let pruneHeight := (bs.zip keep).foldl (fun (ph : Int) (b, k) =>
-              if k && b.parentHeight != -1 && b.parentHeight < ph then b.parentHeight else ph) keepHeight
-            .ok (place r bs keep pruneHeight)
+            let keep := loadKeepFix bs.length bs (bs.map fun b => decide (b.height ≥ keepHeight))
+            .ok (loadPlace r bs keep (loadPruneHeight bs keep keepHeight))
       match rdAll with
       | .error e => (r, some e)
       | .ok (r1, loaded) =>
@@ -685,17 +707,7 @@ def load (r0 : Repo) (depth : Int) (genesis : Hdr) : Repo × Option Fail :=
           | none => (r1, some (.panic "Longest: Last() on empty branch"))
           | some lg =>
             let sorted := sortByPH r1.arena loaded
-            -- link
-            let r2 := sorted.foldl (fun (r : Repo) bi =>
-              let b := r.br bi
-              if b.parentHeight = -1 then { r with branches := r.branches ++ [bi] }
-              else
-                -- Branch.Link: first branch that finds the previous hash; wrong height ⇒ error ⇒ skipped
-                match r.branches.findSome? (fun c => (r.find c b.first.prev).map (fun h => (c, h))) with
-                | none => r
-                | some (c, h) =>
-                  if h ≠ b.parentHeight then r
-                  else { (r.setBranch bi { b with parent := some c }) with branches := r.branches ++ [bi] }) { r1 with branches := [], longest := lg }
+            let r2 := sorted.foldl loadLinkStep { r1 with branches := [], longest := lg }
             match loadHistorical r2 with
             | .error e => (r2, some e)
             | .ok r3 => (r3, none)
